@@ -25,8 +25,8 @@ CHECK = {
            'print_to(s,P,"%s",payload)+append / print_to(s,0,...) / resize(N) shrink and grow / rem(payload) from prefix+payload+suffix / rem absent / copy '
            'on a fresh String, each with the same libc oracle (non-trivial there: N or P+N within one of a power of two >= 64)'),
   'bounds': {
-    'quick': 'content over {a,b} up to length 5 (gcc) and up to length 4 (ASan+UBSan; 3 with aliased operands); operands = all 7 strings of length <= 2; resize(n) for n <= len+2; print_to at every pos <= len, plus (pct=1) print_to with a literal "%%" alone / leading / trailing / doubled / between two conversions at the end and at 0, and (pct=2, gcc) %$ / show_to of the String "%" into the target (content then over {a,b,%,"}); byte alphabets {C3,AF} up to 5, {80,BF,FF} up to 4, ASan {C3,AF} up to 3; light mode {a,b} up to 4 (gcc) and 3 (ASan); ladder (hash asked right before and right after every operation): payload lengths 0..300 x prefix lengths {0,1,5,127,128} x 13 operations, plus 18 String arguments (15 containing %) shown by %$ / show_to / "<%$>" / "%$%$" at every position of an 8-character and of the empty target (gcc and ASan+UBSan)',
-    'thorough': 'content over {a,b,c} up to length 6 with operands of length <= 2 (13), {a,b,c} up to 5 and {a,b} up to 8 with operands of length <= 3; ASan+UBSan: {a,b} up to 6 and {a,b,c} up to 4; byte alphabets {C3,AF} up to 7, {C3,AF,FF,a} up to 5, ASan {C3,AF,80} up to 4; light mode {a,b,c} up to 4, {a,b} up to 6, ASan {a,b} up to 4; ladder: payload lengths 0..1100 (crossing 64, 128, 256, 512, 1024 and neighbours) x the same prefixes and operations',
+    'quick': 'content over {a,b} up to length 5 (gcc) and up to length 4 (ASan+UBSan; 3 with aliased operands); operands = all 7 strings of length <= 2; resize(n) for n <= len+2; print_to at every pos <= len, plus (pct=1) print_to with a literal "%%" alone / leading / trailing / doubled / between two conversions at the end and at 0, and (pct=2, gcc) %$ / show_to of the String "%" into the target (content then over {a,b,%,"}); byte alphabets {C3,AF} up to 5, {80,BF,FF} up to 4, ASan {C3,AF} up to 3; light mode {a,b} up to 4 (gcc) and 3 (ASan); ladder (hash asked right before and right after every operation): payload lengths 0..300 x prefix lengths {0,1,5,127,128} x 13 operations, plus 18 String arguments (15 containing %) shown by %$ / show_to / "<%$>" / "%$%$" at every position of an 8-character and of the empty target (gcc and ASan+UBSan); *-sfx1 instances: the same alphabet with the last operation of the history in the state key (small universes)',
+    'thorough': 'content over {a,b,c} up to length 6 with operands of length <= 2 (13), {a,b,c} up to 5 and {a,b} up to 8 with operands of length <= 3; ASan+UBSan: {a,b} up to 6 and {a,b,c} up to 4; byte alphabets {C3,AF} up to 7, {C3,AF,FF,a} up to 5, ASan {C3,AF,80} up to 4; light mode {a,b,c} up to 4, {a,b} up to 6, ASan {a,b} up to 4; ladder: payload lengths 0..1100 (crossing 64, 128, 256, 512, 1024 and neighbours) x the same prefixes and operations; *-sfx1 / *-sfx2 instances: the last one / two operations of the history in the state key',
   },
   'assumptions': [
     'contents over a 2- to 4-letter alphabet represent all contents; besides {a,b,c} the alphabets {0xC3,0xAF} (a UTF-8 sequence and its halves), {0x80,0xBF,0xFF} and mixtures are explored, and the length ladder is repeated with a payload of multi-byte UTF-8 sequences, lone continuation bytes and 0xFE/0xFF: len is the BYTE length libc strlen gives',
@@ -38,6 +38,8 @@ CHECK = {
   ],
   'instances': {
     'quick': [
+      # history suffix in the state key (lib/vf_bfs.h suffix=K): the last K operations keep histories apart that end in one visible state
+      T('ab3-sfx1', 'base', 'alpha=2', 'maxlen=3', 'suffix=1'),
       T('ab5', 'base', 'alpha=2', 'maxlen=5', 'pct=2'),
       T('ab4-asan', 'asan', 'alpha=2', 'maxlen=4'),
       T('ab3-pct-asan', 'asan', 'alpha=2', 'maxlen=3', 'pct=2'),
@@ -58,6 +60,8 @@ CHECK = {
       T('ladder-asan', 'asan', 'mode=ladder', 'maxn=300'),
     ],
     'thorough': [
+      # history suffix in the state key (lib/vf_bfs.h suffix=K): the last K operations keep histories apart that end in one visible state
+      T('ab4-sfx1', 'base', 'alpha=2', 'maxlen=4', 'suffix=1'), T('ab3-sfx2', 'base', 'alpha=2', 'maxlen=3', 'suffix=2'),
       T('abc6', 'base', 'alpha=3', 'maxlen=6'),
       T('abc5-u3', 'base', 'alpha=3', 'maxlen=5', 'ulen=3'),
       T('ab8-u3', 'base', 'alpha=2', 'maxlen=8', 'ulen=3'),
